@@ -21,3 +21,5 @@ def run(ctx):
     S.r25_monotone_clock(ctx, sc)
     # composition of steps and bounded runs relies on every popped event being executed exactly once (shared rule with C02)
     S.r21_typestate(ctx, sc)
+    # an admitted bounded run must actually be carried out: no wake-up of the run thread may be lost (shared rule with C04)
+    S.r44_wait_clear(ctx, sc)
